@@ -254,15 +254,17 @@ def neededKeys (e : Event) : List Key :=
 def partialLookup (f : SMap) (k : Key) : Option Event :=
   if (k.1 == b!"m.room.member" || k.1 == b!"m.room.third_party_invite") && k.2.isEmpty then none else f k
 
-/-- R7 fallback: the event's own non-rejected auth events (found in the auth map) for that slot; the last wins -/
-def fallback (m : List Event) (rejected : List ID) (e : Event) (k : Key) : Option Event :=
-  (((e.authEventIDs.filter (fun id => !rejected.contains id)).filterMap (lookup m)).filter
-    (fun a => a.type == k.1 && a.stateKeyEquals k.2)).getLast?
+/-- R7 fallback: the event's own non-rejected auth events (found in the auth map) for that slot, in the order the
+    event lists them.  All of them are handed to the auth check: the last one occupies the slot (`Provider.ofEvents`),
+    and every one's room counts when the check asks whether its auth events belong to one room. -/
+def fallback (m : List Event) (rejected : List ID) (e : Event) (k : Key) : List Event :=
+  ((e.authEventIDs.filter (fun id => !rejected.contains id)).filterMap (lookup m)).filter
+    (fun a => a.type == k.1 && a.stateKeyEquals k.2)
 
 /-- the auth events an event is checked against: per needed slot the partial state, else the fallback -/
 def providerEvents (m : List Event) (rejected : List ID) (f : SMap) (e : Event) : List Event :=
-  (neededKeys e).filterMap (fun k => match partialLookup f k with
-    | some r => some r
+  (neededKeys e).flatMap (fun k => match partialLookup f k with
+    | some r => [r]
     | none => fallback m rejected e k)
 
 /-- one iterative-auth step: the event is applied iff the auth rules allow it against those events -/
